@@ -482,7 +482,20 @@ def gen_oracle_form(rng):
         nm = f"s{k}"
         if rng.random() < 0.2 and len(depth) < 2:
             kind = rng.choice(["group", "repeat"])
-            survey.append({"type": f"begin {kind}", "name": f"g{k}", "label": "G"})
+            brow = {"type": f"begin {kind}", "name": f"g{k}", "label": "G"}
+            # data sources named on the row that opens a group or repeat are declared like those named on questions
+            r_ = rng.random()
+            if r_ < 0.2:
+                brow["relevant"] = "${last-saved#q0} = 'yes'"
+                last_saved = True
+            elif r_ < 0.3 and kind == "repeat":
+                brow["repeat_count"] = rng.choice(["${last-saved#q0}", "${last-saved#q0} + 1"])
+                last_saved = True
+            elif r_ < 0.5:
+                f_ = rng.choice(["households", "members"])
+                brow[rng.choice(["relevant", "required"])] = f"pulldata('{f_}', 'a', 'b', ${{q0}}) = 'x'"
+                add_source(f_, f"jr://file-csv/{f_}.csv")
+            survey.append(brow)
             depth.append((kind, f"g{k}"))
             survey.append({"type": "text", "name": f"rq{k}", "label": "RQ"})      # an empty group crashes pyxform (C17 finding)
             continue
